@@ -531,6 +531,13 @@ Theorem C02_worker_local_store_fresh_per_task :
   worker_local_store_fresh_per_task = true.
 Proof. reflexivity. Qed.
 
+(* (iii) every catalog entry is created with its own list of searches,
+   inside the per-path loop of register(): a search added later to one path
+   is not thereby run on the files registered together with it *)
+Theorem C02_catalog_entries_do_not_share_searches :
+  catalog_entry_searches_fresh_per_path = true.
+Proof. reflexivity. Qed.
+
 (* ------------------------------------------------------------------------
    Non-vacuity *)
 
@@ -599,3 +606,4 @@ Print Assumptions C02_collector_thread_wiring.
 Print Assumptions C02_results_manager_modes.
 Print Assumptions C02_source_ids_injective.
 Print Assumptions C02_worker_local_store_fresh_per_task.
+Print Assumptions C02_catalog_entries_do_not_share_searches.
